@@ -31,6 +31,8 @@ def run(ctx):
     monitors.attach(ctx, dtw, "distance", dtwmon.c01_post(ctx, label="C11"))
     monitors.attach(ctx, dtw, "distance_fast", dtwmon.c02_post(ctx, dtw, "dtw.distance_fast", False, False, label="C11"))
     monitors.attach(ctx, dtw_cc, "distance_ndim", dtwmon.c02_post(ctx, dtw, "dtw_cc.distance_ndim", True, True, label="C11"))
+    monitors.attach(ctx, dtw_cc, "distance_ndim_assinglearray",
+                    dtwmon.c02_post(ctx, dtw, "dtw_cc.distance_ndim_assinglearray", True, True, label="C11"))
     mods = (dtw, dtw_ndim, dtw_cc)
     N = ctx.scale(2500, 30000)
     for _ in range(N):
@@ -43,7 +45,7 @@ def run(ctx):
         kw = gen.rand_settings(rng, r, c, with_mld=False)
         ctx.count("cases")
         # distance: Python (oracle) and C (differential)
-        for route in ("py", "fast", "cc"):
+        for route in ("py", "fast", "cc", "flat"):
             ctx.current("%s %r %r %r" % (route, s1.tolist(), s2.tolist(), kw))
             try:
                 if route == "py":
@@ -57,6 +59,10 @@ def run(ctx):
                     if dtwmon.valid_ub_domain(kw, r, c) and rng.random() < 0.3:
                         kwf["use_pruning"] = True
                     dtw_ndim.distance_fast(s1, s2, **kwf)
+                elif route == "flat":
+                    # the same series handed over as one flat buffer each (row-major points)
+                    dtw_cc.distance_ndim_assinglearray(s1.reshape(-1).copy(), s2.reshape(-1).copy(), nd,
+                                                       **dtw.DTWSettings(**kw).c_kwargs())
                 else:
                     dtw_cc.distance_ndim(s1, s2, **dtw.DTWSettings(**kw).c_kwargs())
             except Exception as e:
